@@ -9,7 +9,8 @@ import vm_util as U
 
 GROUP = "VM"
 THEOREMS = ["C10_catch_once", "C10_uncaught_stops", "C10_defers_rev_once", "C10_defers_spent",
-            "C10_panic_defers_rev_once", "C10_recover_resumes_caller", "C10_old_refuted"]
+            "C10_panic_defers_rev_once", "C10_recover_resumes_caller", "C10_old_refuted",
+            "C10_failing_defer_skips_rest_refuted"]
 META = {
     "group": "VM",
     "technique": "Coq proofs over an executable model of the bytecode interpreter's try/catch, defer, panic/recover and "
@@ -27,7 +28,10 @@ META = {
             "VM (printed markers and outcome class); the documented order (reference function) is compared with the real "
             "outputs. Three defects of the compiler's stack-marker discipline are recorded as known findings (for loop "
             "inside try, break/continue out of try, value return below two markers); the theorem's stack-shape "
-            "hypothesis (try marker present, frames well formed) is exactly what they break. "
+            "hypothesis (try marker present, frames well formed) is exactly what they break. A fourth known finding: after "
+            "a deferred call FAILS the deferred calls registered before it are never started "
+            "(C10_failing_defer_skips_rest_refuted; C10_defers_rev_once carries the guard child_ok = no deferred call "
+            "fails, C10_defers_spent = never twice holds unguarded). "
             "partial: the preservation of the stack-shape invariant by compiled code is observed (correspondence), not "
             "proved; selective catch lists, named/multiple results, goroutines and the symbol-table visibility rules are "
             "outside the model",
@@ -162,6 +166,115 @@ func main() {
     print 36
 }
 """, [0, 31, -3, 35, 36], None),
+    ("failing-defer-then-own-catch-then-return", """@extensions true
+func f0() int {
+    defer func() {
+        print 11
+        z1 := 0
+        print 1 / z1
+        print 10
+    }()
+    defer func() {
+        print 12
+    }()
+    try {
+        return 7
+    } catch {
+        print 13
+    }
+    return 14
+}
+func main() {
+    r1 := f0()
+    print r1
+    print 15
+}
+""", [0, 12, 11, 13, 14, 15], None),
+    ("recover-in-defer-not-registered-first", """@extensions true
+func f0() int {
+    defer func() {
+        print 21
+    }()
+    defer func() {
+        print 22
+    }()
+    defer func() {
+        p1 := recover()
+        if p1 != nil {
+            print p1
+        }
+        print 23
+    }()
+    defer func() {
+        print 24
+    }()
+    panic(25)
+    return 20
+}
+func main() {
+    r1 := f0()
+    print r1
+    print 26
+}
+""", [0, 24, 25, 23, 22, 21, -3, 26], None),
+    ("recover-in-caller-with-earlier-cleanup", """@extensions true
+func f2() int {
+    defer func() {
+        print 31
+    }()
+    panic(32)
+    return 30
+}
+func f1() int {
+    f2()
+    print 33
+    return 34
+}
+func f0() int {
+    defer func() {
+        print 35
+    }()
+    defer func() {
+        p1 := recover()
+        if p1 != nil {
+            print p1
+        }
+    }()
+    f1()
+    print 36
+    return 37
+}
+func main() {
+    try {
+        f0()
+        print 38
+    } catch {
+        print 39
+    }
+}
+""", [0, 31, 32, 35, 38], None),
+    ("failing-defer-skips-rest", """@extensions true
+func f0() int {
+    defer func() {
+        print 41
+    }()
+    defer func() {
+        print 42
+        z1 := 0
+        print 1 / z1
+    }()
+    try {
+        return 1
+    } catch {
+        print 43
+    }
+    return 44
+}
+func main() {
+    r1 := f0()
+    print r1
+}
+""", [0, 42, 41, 43, 44], "failing-defer-skips-rest"),
     ("for-loop-in-try", """@extensions true
 func main() {
     try {
@@ -285,7 +398,9 @@ def run(ck):
               "code is observed, not proved, to keep it",
               "symbol tables are modelled by plain parent-chain lookup (generated programs use unique names)",
               "functions abandoned by an error that unwinds to a try in a caller do not run their deferred calls (the "
-              "documentation is silent; the reference follows the VM)")
+              "documentation is silent; the reference follows the VM)",
+              "a deferred call runs in a context of its own: an error or unrecovered panic leaving it is an error at the "
+              "return point (normal path) or ends the context's run (panic path) -- reference and model follow defer.go")
     ck.trusted("harness/C10/dump.go + c10_test.go (in-package overlay: real compiler, real VM, fd 1 captured)",
                "lib/vm_util.py: translator dump -> Coq term, generator, reference semantics; props/C10.py comparison",
                "correspondence evaluated by vm_compute in generated case files")
@@ -328,9 +443,13 @@ def run(ck):
         return
 
     # ---------------------------------------------------------------- property oracle on the real outputs
-    real, nontriv, skipped_undoc, ncompile_err = [], set(), 0, 0
+    real, nontriv, skipped_undoc, ncompile_err, nskiprest = [], set(), 0, 0, 0
     feat = {"try": 0, "defer": 0, "panic(": 0, "for ": 0, "recover()": 0, "return 1 /": 0}
+    shapes = {"failing_deferred_call": sum(1 for p in progs if p and U.has_failing_defer(p)),
+              "defer_heavy_recover_not_first": sum(1 for sx in srcs if sx.count("defer") >= 2 and "recover()" in sx and "panic(" in sx),
+              "return_in_try_with_defers": sum(1 for sx in srcs if re.search(r"defer[\s\S]*try \{\s*(print \d+\s*)?(z\d+ := 0\s*)?return", sx) is not None)}
     oracle_viol = False
+    oracle_bad = set()
     for i, r in enumerate(res):
         if r["compile_err"]:
             ncompile_err += 1
@@ -346,22 +465,32 @@ def run(ck):
         if len(o) >= 4 and sum(1 for k in ("try", "defer", "panic(", "for ", "f1()") if k in srcs[i]) >= 2:
             nontriv.add(srcs[i])
         want = expect[i]
+        sig = sigs[i]
         if want is None and progs[i] is not None:
             cls, tr = U.ref_trace(progs[i])
-            if cls in (3, 9):
+            if cls == 3:
                 skipped_undoc += 1
                 continue
             want = [cls] + tr
+            if o != want:
+                # the one recorded divergence of the VM from the documented reading: after a deferred call
+                # fails the deferred calls registered before it are dropped
+                cls2, tr2 = U.ref_trace(progs[i], vm_variant=True)
+                if o == [cls2] + tr2:
+                    sig = "failing-defer-skips-rest"
+                    nskiprest += 1
         if want is not None and o != want:
-            oracle_viol = oracle_viol or sigs[i] is None
-            ck.violation(sigs[i] or "doc-order",
+            oracle_viol = oracle_viol or sig is None
+            if sig is None:
+                oracle_bad.add(i)
+            ck.violation(sig or "doc-order",
                          "program %s: real trace %s (error %r) differs from the documented order %s" % (
                              names[i], o, r["err"], want),
                          replay={"src": srcs[i], "prog": progs[i], "expected": want, "real": o, "error": r["err"]})
     ck.cov["evaluations"] = len(srcs)
     ck.cov["distinct_nontrivial"] = len(nontriv)
     ck.cov["input_distribution"] = {"programs": len(srcs), "corpus": len(CORPUS) if not ck.replay_file else 0,
-                                    "with_feature": feat, "oracle_skipped_undocumented": skipped_undoc,
+                                    "with_feature": feat, "shapes": shapes, "oracle_skipped_budget": skipped_undoc, "failing_defer_skips_rest_seen": nskiprest,
                                     "real_outcomes": {str(c): sum(1 for o in real if o and o[0] == c) for c in (0, 1, 2)}}
     for i in range(min(3, len(srcs))):
         ck.sample({"program": names[i], "real": real[i]})
@@ -417,7 +546,7 @@ def run(ck):
         ck.violation("model-coverage", "only %d of %d programs lie inside the modelled opcode set: %s" % (len(idx), len(srcs), unsup),
                      replay={"unsupported": unsup}, found_input=False)
     for k, i in enumerate(idx):
-        if mres[k] != real[i] and not oracle_viol:
+        if mres[k] != real[i] and i not in oracle_bad:
             ck.violation("corr-vm", "model VM and real VM disagree on the real bytecode of %s: model %s real %s" % (
                 names[i], mres[k], real[i]), replay={"src": srcs[i], "prog": progs[i], "model": mres[k], "real": real[i]},
                 found_input=False)
